@@ -16,13 +16,14 @@ fn exact(op: BinOp, a: i128, b: i128) -> i128 {
 }
 
 fn check_int_result(r: Result<Primitive, OperatorError>, op: BinOp, a: i128, b: i128) {
-    match r {
-        Ok(Primitive::Integer(v)) => assert!(v as i128 == exact(op, a, b)),
-        Ok(Primitive::PositiveInteger(v)) => assert!(v as i128 == exact(op, a, b)),
+    match &r {
+        Ok(Primitive::Integer(v)) => assert!(*v as i128 == exact(op, a, b)),
+        Ok(Primitive::PositiveInteger(v)) => assert!(*v as i128 == exact(op, a, b)),
         Ok(_) => assert!(false),
         Err(_) => {}
     }
-    // (the result is dropped normally: OperatorError holds no heap data on these paths)
+    // `Primitive` has string / array / graph variants: its drop glue costs CBMC minutes per harness
+    std::mem::forget(r);
 }
 
 /// Boundary operands for multiplication: a fully symbolic 64-bit x 64-bit product compared with an
@@ -92,11 +93,12 @@ macro_rules! div_harness {
             let a: $recv = kani::any();
             let b: $operand = kani::any();
             let r = a.apply_binary_op(BinOp::Div, &Primitive::$kind(b));
-            match r {
+            match &r {
                 Ok(Primitive::Number(_)) => assert!(b != $zero),
                 Ok(_) => assert!(false),
                 Err(_) => assert!(b == $zero),
             }
+            std::mem::forget(r);
         }
     };
 }
@@ -115,11 +117,12 @@ macro_rules! float_operand_harness {
             let a: $recv = kani::any();
             let b: f64 = kani::any();
             let r = a.apply_binary_op($op, &Primitive::Number(b));
-            match r {
+            match &r {
                 Ok(Primitive::Number(_)) => assert!(!matches!($op, BinOp::Div) || b != 0.0),
                 Ok(_) => assert!(false),
                 Err(_) => assert!(matches!($op, BinOp::Div) && b == 0.0),
             }
+            std::mem::forget(r);
         }
     };
 }
@@ -141,11 +144,12 @@ macro_rules! float_recv_harness {
             let b: $operand = kani::any();
             let r = a.apply_binary_op($op, &Primitive::$kind(b));
             let zero: bool = ($is_zero)(b);
-            match r {
+            match &r {
                 Ok(Primitive::Number(_)) => assert!(!matches!($op, BinOp::Div) || !zero),
                 Ok(_) => assert!(false),
                 Err(_) => assert!(matches!($op, BinOp::Div) && zero),
             }
+            std::mem::forget(r);
         }
     };
 }
@@ -163,34 +167,40 @@ float_recv_harness!(arith_f64_div_bool, BinOp::Div, Boolean, bool, |b: bool| !b)
 #[kani::proof]
 fn arith_i64_neg() {
     let a: i64 = kani::any();
-    match a.apply_unary_op(UnOp::Neg) {
-        Ok(Primitive::Integer(v)) => assert!(v as i128 == -(a as i128)),
+    let r = a.apply_unary_op(UnOp::Neg);
+    match &r {
+        Ok(Primitive::Integer(v)) => assert!(*v as i128 == -(a as i128)),
         Ok(_) => assert!(false),
         Err(_) => {}
     }
+    std::mem::forget(r);
 }
 #[kani::proof]
 fn arith_u64_neg() {
     let a: u64 = kani::any();
-    match a.apply_unary_op(UnOp::Neg) {
-        Ok(Primitive::Integer(v)) => assert!(v as i128 == -(a as i128)),
+    let r = a.apply_unary_op(UnOp::Neg);
+    match &r {
+        Ok(Primitive::Integer(v)) => assert!(*v as i128 == -(a as i128)),
         Ok(_) => assert!(false),
         Err(_) => {}
     }
+    std::mem::forget(r);
 }
 #[kani::proof]
 fn arith_f64_neg_not() {
     let a: f64 = kani::any();
-    let _ = a.apply_unary_op(UnOp::Neg);
-    let _ = a.apply_unary_op(UnOp::Not);
+    std::mem::forget(a.apply_unary_op(UnOp::Neg));
+    std::mem::forget(a.apply_unary_op(UnOp::Not));
 }
 #[kani::proof]
 fn arith_bool_ops() {
     let a: bool = kani::any();
     let b: bool = kani::any();
     for op in [BinOp::And, BinOp::Or, BinOp::Xor, BinOp::Implies, BinOp::Iff] {
-        match a.apply_binary_op(op, &Primitive::Boolean(b)) {
+        let r = a.apply_binary_op(op, &Primitive::Boolean(b));
+        match &r {
             Ok(Primitive::Boolean(v)) => {
+                let v = *v;
                 let want = match op {
                     BinOp::And => a && b,
                     BinOp::Or => a || b,
@@ -202,9 +212,14 @@ fn arith_bool_ops() {
             }
             _ => assert!(false),
         }
+        std::mem::forget(r);
     }
-    assert!(matches!(a.apply_unary_op(UnOp::Not), Ok(Primitive::Boolean(v)) if v == !a));
-    assert!(matches!(a.apply_unary_op(UnOp::Neg), Ok(Primitive::Number(_))));
+    let r = a.apply_unary_op(UnOp::Not);
+    assert!(matches!(&r, Ok(Primitive::Boolean(v)) if *v == !a));
+    std::mem::forget(r);
+    let r = a.apply_unary_op(UnOp::Neg);
+    assert!(matches!(&r, Ok(Primitive::Number(_))));
+    std::mem::forget(r);
 }
 // logic operators on integers are rejected, never a panic
 #[kani::proof]
@@ -213,11 +228,19 @@ fn arith_int_logic_rejected() {
     let u: u64 = kani::any();
     let b: i64 = kani::any();
     for op in [BinOp::And, BinOp::Or, BinOp::Xor, BinOp::Implies, BinOp::Iff] {
-        assert!(a.apply_binary_op(op, &Primitive::Integer(b)).is_err());
-        assert!(u.apply_binary_op(op, &Primitive::Integer(b)).is_err());
+        let r = a.apply_binary_op(op, &Primitive::Integer(b));
+        assert!(r.is_err());
+        std::mem::forget(r);
+        let r = u.apply_binary_op(op, &Primitive::Integer(b));
+        assert!(r.is_err());
+        std::mem::forget(r);
     }
-    assert!(a.apply_unary_op(UnOp::Not).is_err());
-    assert!(u.apply_unary_op(UnOp::Not).is_err());
+    let r = a.apply_unary_op(UnOp::Not);
+    assert!(r.is_err());
+    std::mem::forget(r);
+    let r = u.apply_unary_op(UnOp::Not);
+    assert!(r.is_err());
+    std::mem::forget(r);
 }
 // vacuity witness: the assertions above are reachable
 #[kani::proof]
@@ -225,7 +248,8 @@ fn arith_reach_witness() {
     let a: i64 = kani::any();
     let b: i64 = kani::any();
     let r = a.apply_binary_op(BinOp::Add, &Primitive::Integer(b));
-    if let Ok(Primitive::Integer(_)) = r {
+    if let Ok(Primitive::Integer(_)) = &r {
         assert!(false); // must be reported FAILED
     }
+    std::mem::forget(r);
 }
